@@ -2,6 +2,7 @@ package main
 
 import (
 	"fmt"
+	"regexp"
 	"go/token"
 	"go/types"
 	"sort"
@@ -39,6 +40,9 @@ func (e *Engine) verifyFunc(f *ssa.Function, ct *Contract) *FnVC {
 	in := &inst{fv: fv, fn: f, vals: map[ssa.Value]Val{}, ct: ct, top: true, letVals: map[string]Val{}}
 	if ct.hasMode("panics-allowed") {
 		in.panicOK = true
+	}
+	if ct.hasMode("split-paths") {
+		in.split = true
 	}
 	for i, p := range f.Params {
 		v := fv.unknown(st, p.Type(), "p_"+sanitize(p.Name()))
@@ -315,7 +319,13 @@ func frameKeyName(k string) string {
 }
 
 // query builds the SMT-LIB text of one obligation (sliced to its cone).
-func (o *Obligation) query() string {
+func (o *Obligation) query() string { return o.queryLevel(0) }
+
+// queryLevel(rounds): rounds == 0 gives the full (cone-sliced) query; rounds > 0
+// additionally keeps only assertions within that many steps of symbol sharing
+// from the goal (dropping hypotheses is sound; a result other than unsat on a
+// reduced query is never used).
+func (o *Obligation) queryLevel(rounds int) string {
 	if o.raw != "" {
 		return o.raw
 	}
@@ -345,22 +355,50 @@ func (o *Obligation) query() string {
 		}
 		sort.Ints(idx)
 	}
+	var body []string
 	for _, i := range idx {
 		if o.exclude != nil && fv.lines[i].obl != nil && o.exclude[fv.lines[i].obl] {
 			continue
 		}
-		b.WriteString(fv.lines[i].text)
+		body = append(body, fv.lines[i].text)
+	}
+	var goalLine string
+	if o.Kind == "cover" {
+		goalLine = "(assert " + o.guard + ")"
+	} else {
+		goalLine = "(assert (not " + implies(o.guard, o.goal) + "))"
+	}
+	if rounds > 0 {
+		var globals []string
+		for _, i := range fv.tagLines[-1] {
+			globals = append(globals, fv.lines[i].text)
+		}
+		keepG, keepB := relevanceSlice(globals, body, goalLine, rounds)
+		b.Reset()
+		b.WriteString(preludeSorts)
+		b.WriteString(fv.eng.specText)
+		for i, l := range globals {
+			if keepG[i] {
+				b.WriteString(l)
+				b.WriteByte('\n')
+			}
+		}
+		for i, l := range body {
+			if keepB[i] {
+				b.WriteString(l)
+				b.WriteByte('\n')
+			}
+		}
+		b.WriteString(fv.tagFacts())
+		b.WriteString(goalLine + "\n(check-sat)\n")
+		return b.String()
+	}
+	for _, l := range body {
+		b.WriteString(l)
 		b.WriteByte('\n')
 	}
-	// global declarations made after this point may be referenced by terms
-	// above only if they were emitted before; facts about tags are global
 	b.WriteString(fv.tagFacts())
-	if o.Kind == "cover" {
-		b.WriteString("(assert " + o.guard + ")\n")
-	} else {
-		b.WriteString("(assert (not " + implies(o.guard, o.goal) + "))\n")
-	}
-	b.WriteString("(check-sat)\n")
+	b.WriteString(goalLine + "\n(check-sat)\n")
 	return b.String()
 }
 
@@ -407,4 +445,123 @@ func (fv *FnVC) tagFacts() string {
 		}
 	}
 	return b.String()
+}
+
+var symRe = regexp.MustCompile(`[A-Za-z_][A-Za-z0-9_!]*`)
+
+var smtKeywords = map[string]bool{"assert": true, "and": true, "or": true, "not": true, "ite": true, "select": true, "store": true, "true": true, "false": true,
+	"declare": true, "define": true, "fun": true, "const": true, "let": true, "forall": true, "exists": true, "Array": true, "Loc": true, "Slice": true, "Iface": true,
+	"Str": true, "Int": true, "Bool": true, "BitVec": true, "FloatingPoint": true, "_": true, "distinct": true}
+
+func lineSyms(l string) []string {
+	ws := symRe.FindAllString(l, -1)
+	out := ws[:0]
+	for _, w := range ws {
+		if !smtKeywords[w] && !strings.HasPrefix(w, "bv") && !strings.HasPrefix(w, "x0") {
+			out = append(out, w)
+		}
+	}
+	return out
+}
+
+// relevanceSlice keeps definitions of used symbols and the assertions that
+// share a (non-ubiquitous) symbol with the goal within `rounds` steps.
+func relevanceSlice(globals, body []string, goal string, rounds int) (keepG, keepB []bool) {
+	all := append(append([]string(nil), globals...), body...)
+	n := len(all)
+	syms := make([][]string, n)
+	isAssert := make([]bool, n)
+	defines := map[string]int{}
+	freq := map[string]int{}
+	nAssert := 0
+	for i, l := range all {
+		syms[i] = lineSyms(l)
+		if strings.HasPrefix(l, "(assert") {
+			isAssert[i] = true
+			nAssert++
+			seen := map[string]bool{}
+			for _, s := range syms[i] {
+				if !seen[s] {
+					seen[s] = true
+					freq[s]++
+				}
+			}
+		} else if len(syms[i]) > 0 {
+			defines[syms[i][0]] = i
+		}
+	}
+	common := func(s string) bool { return nAssert > 40 && freq[s]*8 > nAssert }
+	keep := make([]bool, n)
+	rel := map[string]bool{}
+	var addSym func(s string)
+	addSym = func(s string) {
+		if rel[s] {
+			return
+		}
+		rel[s] = true
+		if i, ok := defines[s]; ok && !keep[i] {
+			keep[i] = true
+			for _, t := range syms[i][1:] {
+				addSym(t)
+			}
+		}
+	}
+	for _, s := range lineSyms(goal) {
+		addSym(s)
+	}
+	for r := 0; r < rounds; r++ {
+		var newly []int
+		for i := 0; i < n; i++ {
+			if !isAssert[i] || keep[i] {
+				continue
+			}
+			for _, s := range syms[i] {
+				if rel[s] && !common(s) {
+					newly = append(newly, i)
+					break
+				}
+			}
+		}
+		if len(newly) == 0 {
+			break
+		}
+		for _, i := range newly {
+			keep[i] = true
+		}
+		for _, i := range newly {
+			for _, s := range syms[i] {
+				addSym(s)
+			}
+		}
+	}
+	// declarations of every symbol that is used by something kept
+	for i := 0; i < n; i++ {
+		if keep[i] {
+			for _, s := range syms[i] {
+				if j, ok := defines[s]; ok && !keep[j] {
+					keep[j] = true
+					for _, t := range syms[j][1:] {
+						addSym(t)
+					}
+				}
+			}
+		}
+	}
+	// closure: definitions pulled in late may reference further definitions
+	for changed := true; changed; {
+		changed = false
+		for s := range rel {
+			if j, ok := defines[s]; ok && !keep[j] {
+				keep[j] = true
+				changed = true
+				for _, t := range syms[j][1:] {
+					if !rel[t] {
+						rel[t] = true
+						changed = true
+					}
+				}
+			}
+		}
+	}
+	return keep[:len(globals)], keep[len(globals):]
 }
